@@ -102,13 +102,19 @@ def run(ctx):
         if kind != "constant":
             tb2 = dict(tb)
             tb2["So"] = np.clip(tb["So"], 0, 1 - sw)
+            if k % 2:
+                # a table shared with a single-phase workflow carries that workflow's columns too (its own 1/(c mu) under the name
+                # "alpha", a scaled pseudopressure): the two-phase diffusivity is computed from the fluid columns, whatever else is there
+                tb2["alpha"] = 1.0 / (1e-5 + 1e-9 * np.asarray(P, float))
+                tb2["m-scaled"] = np.linspace(0.0, 1.3, len(P))
+                tb2["compressibility"] = np.full(len(P), 3e-6)
             try:
                 with warnings.catch_warnings():
                     warnings.simplefilter("ignore")
                     # the caller's density mapping lists its three keys in whatever order it was built (what the keys say decides)
                     rho_how, rho_arg = [("oil, gas, water", dict(rho)), ("water, gas, oil", {q: rho[q] for q in ("rho_w0", "rho_g0", "rho_o0")}),
                                         ("gas, oil, water", {q: rho[q] for q in ("rho_g0", "rho_o0", "rho_w0")}), ("gas, water, oil", {q: rho[q] for q in ("rho_g0", "rho_w0", "rho_o0")})][k % 4]
-                    inp = dict(**inp, density_mapping_key_order=rho_how)
+                    inp = dict(**inp, density_mapping_key_order=rho_how, table_also_carries_single_phase_columns=bool(k % 2))
                     fp = FlowPropertiesTwoPhase.from_table(tb2, krt, rho_arg, phi, sw, float(P[len(P) // 2]))
                 ta = np.asarray(fp.pvt_props["alpha"], float)
                 wl = doc_mobility(P, tb2["So"], pvt, kr)
